@@ -68,8 +68,11 @@ LEAF_IS_TENSOR = {"var": True, "const": True, "inttensor": True, "array": False,
 class RefRun:
     """Executes a program on NumPy arrays; see module docstring."""
 
-    def __init__(self, prog, cplx=False, perturb=None, kinklog=None, stop_at=None):
+    def __init__(self, prog, cplx=False, perturb=None, kinklog=None, stop_at=None, flag_views="grad"):
         self.prog = prog
+        # how a non-constant view of constant memory is modelled: "grad" = an independent tensor owning its
+        # gradient (C01/C10 oracles); "memory" = an ordinary view (C04's sharing/base oracle)
+        self.flag_views = flag_views
         self.cplx = cplx
         self.perturb = perturb  # (handle, flat_index, after_stmt_index)
         self.env = {}
@@ -202,7 +205,7 @@ class RefRun:
             if parent is not None and self.kind.get(parent) in ("scalar", "intscalar"):
                 parent = None  # python scalars are copied into a fresh array: never a view
                 res = res.copy()
-            elif parent is not None and not const and self.const[self.owner[parent]]:
+            elif parent is not None and not const and self.const[self.owner[parent]] and self.flag_views == "grad":
                 # a non-constant view of constant memory (explicit constant=False): its gradient is its own
                 parent = None
                 res = res.copy()
@@ -386,6 +389,8 @@ class MgRun:
             kw = {}
             if p.get("where") is not None:
                 kw["where"] = np.array(p["where"], dtype=bool).reshape(p["wshape"])
+            if p.get("constant") is not None:
+                kw["constant"] = p["constant"]  # must be ignored: an in-place target keeps its own flag
             mod = np if p.get("via") == "np" else mg
             name = {"abs": "absolute"}.get(st["op"], st["op"])
             r = getattr(mod, name)(*vals, out=t, **kw)
